@@ -29,7 +29,11 @@ type StreamSpec struct {
 	Synth     *ref.SynthParams `json:"synth,omitempty"`
 	SynthSeed uint64           `json:"synth_seed,omitempty"`
 	Wrap      string           `json:"wrap,omitempty"` // for synth/lit: "", "gzip", "zlib"
-	Lit       []byte           `json:"lit,omitempty"`
+	// WrapFlags (gzip wrap): FLG bits to set in the hand-made member header
+	// (1 FTEXT, 2 FHCRC, 4 FEXTRA, 8 FNAME, 16 FCOMMENT); field contents are
+	// derived from SynthSeed. Encoders never produce FHCRC, Readers must parse it.
+	WrapFlags int    `json:"wrap_flags,omitempty"`
+	Lit       []byte `json:"lit,omitempty"`
 }
 
 type Mutation struct {
@@ -76,6 +80,9 @@ func (sp *StreamSpec) build() (b []byte, payload []byte, fastMade bool, err stri
 		return last.Sink.Data, last.Model, sp.Enc == "fast", ""
 	case "synth":
 		s := ref.Synthesize(synthRng{kern.NewRng(sp.SynthSeed)}, *sp.Synth)
+		if sp.Wrap == "gzip" && sp.WrapFlags != 0 {
+			return wrapGzipFlags(s.Stream, sp.WrapFlags, sp.SynthSeed), s.Out, false, ""
+		}
 		return wrap(sp.Wrap, s.Stream, sp.Synth.Dict), s.Out, false, ""
 	default:
 		return wrap(sp.Wrap, sp.Lit, nil), nil, false, ""
@@ -109,6 +116,42 @@ func wrap(kind string, raw []byte, dict []byte) []byte {
 		return append(out, tr[:]...)
 	}
 	return raw
+}
+
+// wrapGzipFlags frames raw as a gzip member whose header carries the optional
+// fields selected by flags, including a correct header CRC when FHCRC is set.
+func wrapGzipFlags(raw []byte, flags int, seed uint64) []byte {
+	r := kern.NewRng(seed ^ 0x9219)
+	flags &= 31
+	h := []byte{0x1f, 0x8b, 8, byte(flags), byte(r.Intn(256)), byte(r.Intn(256)), byte(r.Intn(256)), byte(r.Intn(256)), byte(r.Pick(0, 2, 4)), byte(r.Intn(256))}
+	if flags&4 != 0 {
+		ex := r.Bytes(r.Pick(0, 1, 10, 300))
+		h = append(h, byte(len(ex)), byte(len(ex)>>8))
+		h = append(h, ex...)
+	}
+	str := func() {
+		n := r.Pick(0, 1, 8, 100, 511)
+		for i := 0; i < n; i++ {
+			h = append(h, byte(1+r.Intn(255)))
+		}
+		h = append(h, 0)
+	}
+	if flags&8 != 0 {
+		str()
+	}
+	if flags&16 != 0 {
+		str()
+	}
+	if flags&2 != 0 {
+		c := crc32.ChecksumIEEE(h)
+		h = append(h, byte(c), byte(c>>8))
+	}
+	dec := ref.Inflate(raw, ref.Options{MaxOut: 64 << 20})
+	out := append(h, raw...)
+	var tr [8]byte
+	binary.LittleEndian.PutUint32(tr[:], crc32.ChecksumIEEE(dec.Out))
+	binary.LittleEndian.PutUint32(tr[4:], uint32(len(dec.Out)))
+	return append(out, tr[:]...)
 }
 
 func (in *InputSpec) Build() *Built {
